@@ -158,6 +158,11 @@ func (*BinaryBoolExprNode) GetType() NodeType {
 }
 
 func (node *BinaryBoolExprNode) EvalBool(s Symbols) bool {
+	// a null operand makes every comparison false, except !=, same as for the other types
+	if isNilBoolOperand(node.left, s) || isNilBoolOperand(node.right, s) {
+		return node.op == BinaryOpNEQ
+	}
+
 	leftResult := node.left.EvalBool(s)
 	rightResult := node.right.EvalBool(s)
 
@@ -169,6 +174,13 @@ func (node *BinaryBoolExprNode) EvalBool(s Symbols) bool {
 	}
 
 	pfxlog.Logger().Errorf("unhandled boolean binary expression type %v", node.op)
+	return false
+}
+
+func isNilBoolOperand(node BoolNode, s Symbols) bool {
+	if symbolNode, ok := node.(SymbolNode); ok {
+		return s.IsNil(symbolNode.Symbol())
+	}
 	return false
 }
 
